@@ -608,6 +608,14 @@ func (b *BaseStore) Load(ctx context.Context, amount int) error {
 					continue
 				}
 
+				// Join does not walk through the entries the log already holds: on
+				// a store that holds a part of the log (loaded with a limit, written
+				// to or replicated into before this call) what lies below them would
+				// never be merged. Only the missing entries are handed to it
+				if _, held := oplog.Get(e.GetHash()); held {
+					continue
+				}
+
 				if provider := b.Identity().Provider; provider != nil {
 					if err := b.AccessController().CanAppend(e, provider, &CanAppendContext{log: oplog}); err != nil {
 						continue
